@@ -18,10 +18,9 @@ def mc_family(family, tier, wd):
 
 
 GRACEFUL_REGRESSIONS = [
-    # D24b: the batch persisted by the shutdown fills its segment (segment of 5 messages, 15 messages)
-    ('D24b-last-batch-fills-segment', dict(save_threshold=2, segment_bytes=305, cache='off', confirmation='no_wait', fsync=False),
-     [dict(op='append', k=1), dict(op='append', k=3), dict(op='append', k=3), dict(op='append', k=3), dict(op='append', k=1),
-      dict(op='flush'), dict(op='append', k=3), dict(op='flush'), dict(op='append', k=1)]),
+    # D24b: the batch persisted by the shutdown fills its segment (the payload lengths derive from the seed: kept with the workload)
+    ('D24b-last-batch-fills-segment', 808890003, {'save_threshold': 2, 'segment_bytes': 305, 'cache': 'off', 'confirmation': 'no_wait', 'fsync': False},
+     [{'op': 'append', 'k': 1}, {'op': 'append', 'k': 3}, {'op': 'store', 'o': 3}, {'op': 'store', 'o': 1}, {'op': 'append', 'k': 3}, {'op': 'append', 'k': 3}, {'op': 'store', 'o': 6}, {'op': 'create_topic'}, {'op': 'append', 'k': 1}, {'op': 'store', 'o': 6}, {'op': 'flush'}, {'op': 'create_partitions'}, {'op': 'flush'}, {'op': 'append', 'k': 3}, {'op': 'flush'}, {'op': 'append', 'k': 1}]),
 ]
 
 
@@ -67,9 +66,9 @@ def build_scenarios(families, tier, wd, seed):
                                               cfg=dict(save_threshold=thr, segment_bytes=seg, cache='off', confirmation=conf, fsync=fsync),
                                               steps=workload(rnd, rnd.choice([3, 6, 9]) if tier == 'quick' else 16)))
         # regression workloads (findings pinned in the quick tier)
-        for name, cfg, steps in GRACEFUL_REGRESSIONS:
+        for name, seed_, cfg, steps in GRACEFUL_REGRESSIONS:
             n += 1
-            scenarios.append(dict(id=f'graceful-regress-{name}', family='graceful', seed=7, graceful_only=True, cfg=cfg, steps=steps))
+            scenarios.append(dict(id=f'graceful-regress-{name}', family='graceful', seed=seed_, graceful_only=True, cfg=cfg, steps=steps))
         return scenarios, {'graceful': dict(workloads=len(scenarios))}
     return scenarios, {'crash': dict(workloads=len(scenarios))}
 
